@@ -279,7 +279,9 @@ def compare(ctx, res, mline):
             return False
         fields = ["A", "R", "B"] + (["Q"] if res["kind"] == "m" else [])
         diff = [f for f in fields if snap[f] != mstate[f]]
-        if out != mout:
+        # add_implicit_hydrogens: whether the routine raises is decided by property C16; the model op
+        # takes the hydrogens that were in fact added, so only the state is compared for it
+        if out != mout and not (i > 0 and res["ops"][i - 1][0] == "addh"):
             diff.append("out")
         if diff:
             ctx.disagree(f"state after step {i - 1} differs in {diff}", {**tag, "step": i - 1, "op": res["ops"][i - 1] if i else None},
